@@ -48,7 +48,7 @@ def run_impl(case):
     return su.run_real_cached(case)
 
 
-def run_model(drv, case):
+def _run_model_one(drv, case):
     if case["dim"] == "2D":
         m = su.model_2d(drv, case, su.programs(case)[0], 0.5)
         m["is2D"] = True
@@ -59,7 +59,8 @@ def run_model(drv, case):
     prog = su.programs(case)[0]
     out = {}
     for tag, old in (("new", False), ("old", True)):
-        r = drv.call(su.model_request(case, rec, prog=prog, Frand=0.5, old=old, row_stride=10 ** 9))
+        fr = prog["Frand"] if prog.get("Frand") is not None else su.recorded_frand(0)
+        r = drv.call(su.model_request(case, rec, prog=prog, Frand=fr, old=old, row_stride=10 ** 9))
         out[tag] = su.decode_model(r)
         if case["dim"] == "0D":
             out["old"] = out["new"]
@@ -91,7 +92,7 @@ def _cmp_one(case, impl, m):
     return dis
 
 
-def compare(case, impl, model):
+def _compare_one(case, impl, model):
     if model is None:
         return []
     if impl.get("raise"):
@@ -121,7 +122,7 @@ def _min_by_step(case, impl, run):
     return a.reshape(a.shape[0], -1).min(axis=1), i_end
 
 
-def predicates(case, impl):
+def _predicates_one(case, impl):
     out = []
     if impl.get("raise") or not impl.get("runs"):
         return out
@@ -161,6 +162,62 @@ def predicates(case, impl):
     if not close(tnuc, float(minT[i_end]), rtol=1e-9):
         out.append(Failure(clause="cn_Tnuc_close", key=f"Tnuc_is_field_min|{site}|",
                            detail=f"reported {tnuc} vs coldest point of the recorded field {minT[i_end]}"))
+    return out
+
+
+# --- object histories: `S.opcond.cnTemp = T` edited IN PLACE between runs; every run is checked against the
+# --- cnTemp in force at that run (as the run of a fresh object with that programme)
+def _views(case, impl):
+    if impl.get("raise") or not impl.get("runs"):
+        return [(case, impl)]
+    out = []
+    for k, run in enumerate(impl["runs"]):
+        ck = su.case_of_run(case, k) if len(impl["runs"]) > 1 else case
+        ik = dict(impl, runs=[run])
+        if run.get("const") is not None:
+            ik["const"], ik["visf"] = run["const"], run.get("visf")
+        out.append((ck, ik))
+    return out
+
+
+def run_model(drv, case):
+    n = len(su.programs(case))
+    if n == 1:
+        return _run_model_one(drv, case)
+    return {"history": [_run_model_one(drv, su.case_of_run(case, k)) for k in range(n)]}
+
+
+def compare(case, impl, model):
+    if model is None or "history" not in model:
+        return _compare_one(case, impl, model)
+    if impl.get("raise"):
+        return _compare_one(case, impl, model["history"][0])
+    dis = []
+    for k, ((ck, ik), mk) in enumerate(zip(_views(case, impl), model["history"])):
+        if "snap" not in ik["runs"][0]:
+            continue
+        dis += [f"run {k} of the object history (cnTemp in force: {ck.get('cnTemp')}): {d}"
+                for d in _compare_one(ck, ik, mk)]
+    return dis
+
+
+def predicates(case, impl):
+    out = []
+    for k, (ck, ik) in enumerate(_views(case, impl)):
+        if ik.get("runs") and "snap" not in ik["runs"][0]:
+            continue
+        if ck.get("cnTemp") is None and k > 0:
+            # cnTemp switched OFF in place: the run must be a stochastic one (first crossing of the hazard, C08)
+            import props.c08 as c08
+
+            fs = c08._predicates_one(ck, ik)
+        else:
+            fs = _predicates_one(ck, ik)
+        if k > 0:
+            for f in fs:
+                f["key"] += "|cnTemp-edited-in-place"
+                f["detail"] = f"run {k} after `S.opcond.cnTemp = {ck.get('cnTemp')}` (edited in place): " + f["detail"]
+        out += fs
     return out
 
 
@@ -256,7 +313,29 @@ def special_cases(tier):
     return out
 
 
+def cases_edit_in_place():
+    """ONE Snowing object, `S.opcond.cnTemp` edited in place between runs: value -> value, None -> value,
+    value -> None (0D), and value -> value in 1D"""
+    p0 = dict(dim="0D", config="shelf", k_s0=100, t_tot=3000, start=20, stop=-50, rate=0.1, holds=None, Frand=0.5)
+
+    def nxt(cn):
+        return dict(t_tot=3000, start=20, stop=-50, rate=0.1, holds=None, cnTemp=cn, Frand=0.5, edit="cnTemp-in-place")
+
+    a = dict(p0, cnTemp=-3.0, kind="edit-in-place", runs=[nxt(-8.0), nxt(None), nxt(-2.0)])
+    b = dict(p0, cnTemp=None, kind="edit-in-place", runs=[nxt(-2.0), nxt(-12.0)])
+    h = 0.05
+    dt = su.dt_1d_default(h)
+    p1 = dict(dim="1D", config="shelf", height=h, k_s0=2000, t_tot=5000 * dt, start=20, stop=-50, rate=0.5, holds=None,
+              Frand=0.5)
+    c = dict(p1, cnTemp=-3.0, kind="edit-in-place",
+             runs=[dict(t_tot=5000 * dt, start=20, stop=-50, rate=0.5, holds=None, cnTemp=-8.0, Frand=0.5,
+                        edit="cnTemp-in-place")])
+    return [a, b, c]
+
+
 def cases(rng, tier):
+    for c in cases_edit_in_place():
+        yield c
     n0, n1, nv, n2 = (20, 8, 2, 0) if tier == "quick" else (300, 100, 16, 8)
     for c in special_cases(tier):
         yield c
